@@ -83,9 +83,9 @@ structure GrepOpts where
   belongTaxa : List String := []
   notBelongTaxa : List Int := []
   requiredRanks : List String := []
-  minLength : Int := 1
+  minLength : Int := 0
   maxLength : Int := 2000000000
-  minCount : Int := 1
+  minCount : Int := 0
   maxCount : Int := 2000000000
   seqPatterns : List String := []
   defPatterns : List String := []
@@ -148,18 +148,19 @@ def orAll (l : List PFun) : Pred :=
 
 def tot (f : Rec → Bool) : PFun := fun r => some (f r)
 
-/-- `CLISequenceSizePredicate` -/
+/-- `CLISequenceSizePredicate` (repaired: the minimum is requested when it is `> 0`, the default being
+0; the unrepaired code had default 1 and tested `> 1`, so that `-l 1` was ignored) -/
 def sizePredicate (o : GrepOpts) : Pred :=
-  if o.minLength > 1 then
+  if o.minLength > 0 then
     let p := pure fun r => r.len ≥ o.minLength
     if o.maxLength ≠ 2000000000 then p.and (pure fun r => r.len ≤ o.maxLength) else p
   else if o.maxLength ≠ 2000000000 then pure fun r => r.len ≤ o.maxLength
   else none
 
 /-- `CLISequenceCountPredicate` (repaired: the second guard tests `_MaximumCount`; the unrepaired code
-tested `_MaximumLength`) -/
+tested `_MaximumLength`; and, as for the length, the minimum is requested when `> 0`) -/
 def countPredicate (o : GrepOpts) : Pred :=
-  if o.minCount > 1 then
+  if o.minCount > 0 then
     let p := pure fun r => r.count ≥ o.minCount
     if o.maxCount ≠ 2000000000 then p.and (pure fun r => r.count ≤ o.maxCount) else p
   else if o.maxCount ≠ 2000000000 then pure fun r => r.count ≤ o.maxCount
